@@ -1,6 +1,7 @@
 import ScVerif.Base.Line
 import ScVerif.C01.Flat
 import ScVerif.C01.Opts
+import ScVerif.C01.Res
 import ScVerif.C01.Paths
 /-!
 Driver handler for C01 (stateful): one resource (Value or Collection over the `Flat` message) per
@@ -11,6 +12,9 @@ Requests (tokens `key=value` or bare flags, any order after the op):
 ```
 newc [W=<mask>] [icpt=<name>] [tick=<n>] [rng=<b,b,…>] [init=<id~msg;id~msg>]      -> ok
 newv [W=<mask>] [tick=<n>] [init=<msg>]                                             -> ok
+newc|newv … res=<opt>|<opt>|…   the resource as constructed from an ORDERED option list (then no W/icpt/init):
+            W:<mask|nil> Wp:<mask> icpt:<name|nil> init:<msg|nil> rec:<id>~<msg> eqv:<name> nop clk rng
+                                                                                    -> ok | panic
 upd|add id=<id> msg=<msg> <write opts>     -> val=… err=… ev=[…] ids=[…] created=n | st=[…] clk=n
 del id=<id> <write opts>                   -> likewise
 get id=<id> [rm=<mask>]                    -> <msg>|nil
@@ -21,8 +25,9 @@ wnp paths=<p,p,…>                          -> the paths `withoutNestedPaths` k
 sel paths=<p,p,…> leaf=<p>                 -> true|false: does nestedMask(paths) select the leaf field
 iwp path=<p> w=<p,p,…>                     -> true|false: `isWritablePath`   (p: a real path string)
 write opts: wt=<n> um=<mask|nil> mum=<mask> rs=<mask|nil> ev=<msg|nil> xa chk=<name|nil> am am0 bf=<name|nil>
-            af=<name|nil> nw mw=<mask> cia ccb ccb0 gid icb icb0   — applied IN THE ORDER GIVEN, repeats allowed
-read opts:  rm=<mask|nil> inc=<name|nil> uo uo0 bp bp0   — likewise
+            af=<name|nil> nw mw=<mask> cia ccb ccb0 gid icb icb0 ump=<mask> mump=<mask> rsp=<mask> mwp=<mask> nop
+            — applied IN THE ORDER GIVEN, repeats allowed (ump/mump/rsp/mwp: the With…Paths spellings)
+read opts:  rm=<mask|nil> inc=<name|nil> uo uo0 bp bp0 rmp=<mask> nop   — likewise
 mask: 0 (no paths) or paths a,s,c,f,r,x,fc,fd,fx,p,t,tp separated by commas;
 msg: <a>/<s>/<c|->[/<f: -|c:d>/<r: -|n.n.n>[/<p>/<t: -|n>]]
 ```
@@ -119,6 +124,12 @@ def parseWOpt? : String × String → Option (List (WOpt Msg Mask))
   | ("icb0", _) => some [.noIDCallback]
   | ("gid", _) => some [.genIDIfAbsent]
   | ("icb", _) => some [.idCallback]
+  -- the same options spelled with paths, and `EmptyWriteOption{}`
+  | ("ump", v) => (parseMask? v).map fun m => [.updatePaths m]
+  | ("mump", v) => (parseMask? v).map fun m => [.moreUpdatePaths m]
+  | ("rsp", v) => (parseMask? v).map fun m => [.resetPaths m]
+  | ("mwp", v) => (parseMask? v).map fun m => [.moreWritablePaths m]
+  | ("nop", _) => some [.empty]
   | _ => none
 
 /-- the option tokens of a write, IN THE ORDER GIVEN (repeats allowed) -/
@@ -135,6 +146,8 @@ def parseROpt? : String × String → Option (List (ROpt Msg Mask))
   | ("uo0", _) => some [.other]
   | ("bp", _) => some [.other]
   | ("bp0", _) => some [.other]
+  | ("rmp", v) => (parseMask? v).map fun m => [.readPaths m]
+  | ("nop", _) => some [.other]
   | _ => none
 
 def parseReadOpts? (kv : KV) : Option (List (ROpt Msg Mask)) := (kv.mapM parseROpt?).map List.flatten
@@ -157,6 +170,31 @@ def parseCfg? (kv : KV) : Option FCfg := do
   let ic ← optKey kv "icpt" namedIcpt
   let tick ← optKey kv "tick" parseNat?
   pure { ops := flatOps, writable := w, icpt := ic, tick := ((tick.getD 1 : Nat) : Int), gen := flatGen }
+
+/-- one resource option `k:v` of a `res=` list (`WithWritablePaths` is `WithWritableFields` on the mask of
+the paths; clock, rng, equivalence and `EmptyOption` do not concern the calls modelled here) -/
+def parseResOpt? (t : String) : Option (ResOpt Msg Mask) :=
+  match t.splitOn ":" with
+  | [] => none
+  | k :: rest =>
+    let v := ":".intercalate rest
+    match k with
+    | "W" => (parseMaskOrNil? v).map .writable
+    | "Wp" => (parseMask? v).map fun m => .writable (some m)
+    | "icpt" => if v = "nil" then some (.icpt none) else (namedIcpt v).map fun f => .icpt (some f)
+    | "init" => if v = "nil" then some (.initialValue none) else (parseMsg? v).map fun m => .initialValue (some m)
+    | "rec" => match v.splitOn "~" with
+      | [id, m] => (parseMsg? m).map fun mv => .initialRecord id mv
+      | _ => none
+    | "eqv" => some .other
+    | "nop" => some .other
+    | "clk" => some .other
+    | "rng" => some .other
+    | _ => none
+
+/-- `res=<opt>|<opt>|…`: the resource options IN THE ORDER GIVEN (repeats allowed) -/
+def parseResOpts? (s : String) : Option (List (ResOpt Msg Mask)) :=
+  if s = "" then some [] else (s.splitOn "|").mapM parseResOpt?
 
 /-! ### printing -/
 
@@ -241,12 +279,27 @@ def handleOpt (st : DrvState) (toks : List String) : Option (DrvState × String)
     | "newc", _ =>
       let cfg ← parseCfg? kv
       let rng ← parseRng? ((kvGet kv "rng").getD "")
-      let init ← parseInit? ((kvGet kv "init").getD "")
-      pure (.coll cfg (Coll.init cfg init rng), "ok")
+      match kvGet kv "res" with
+      | some r =>
+        -- constructed from an ordered resource option list (which then decides W / icpt / the records)
+        let opts ← parseResOpts? r
+        match Coll.newO cfg opts rng with
+        | some (cfg', s) => pure (.coll cfg' s, "ok")
+        | none => pure (.none, "panic")
+      | none =>
+        let init ← parseInit? ((kvGet kv "init").getD "")
+        pure (.coll cfg (Coll.init cfg init rng), "ok")
     | "newv", _ =>
       let cfg ← parseCfg? kv
-      let init ← optKey kv "init" parseMsg?
-      pure (.val cfg (Value.init cfg init), "ok")
+      match kvGet kv "res" with
+      | some r =>
+        let opts ← parseResOpts? r
+        match Value.newO cfg opts with
+        | some (cfg', s) => pure (.val cfg' s, "ok")
+        | none => pure (.none, "panic")
+      | none =>
+        let init ← optKey kv "init" parseMsg?
+        pure (.val cfg (Value.init cfg init), "ok")
     | "upd", .coll cfg s =>
       let id ← kvGet kv "id"
       let msg ← (kvGet kv "msg").bind parseMsg?
